@@ -19,6 +19,7 @@ PROP = 'C04'
 PROOFS = ['theories/Ctrl/Proofs.v']
 HEADER = 'From PW Require Import Ctrl.Model Ctrl.Run.\n'
 CLASSES = ['Coop', 'Swallows', 'BlockedC', 'GilHeld', 'Stopped']
+THREAD_KINDS = ('KThread', 'KPersistentThread')
 
 
 class FakeChild:
@@ -118,6 +119,14 @@ def make_worker(kind, cls, run):
                 self._child = child
                 self._dead = False
                 self._pid = 999999
+    elif kind == 'KPersistentThread':
+        from pyworkers.persistent_thread import PersistentThreadWorker
+
+        class W(PersistentThreadWorker):
+            def _start(self):
+                self._child = child
+                self._dead = False
+                self._tid = -1
     else:
         class W(PersistentProcessWorker):
             def _start(self):
@@ -125,14 +134,23 @@ def make_worker(kind, cls, run):
                 self._dead = False
                 self._pid = 999999
     w = W(target=(lambda *a: None), run=run)
-    if kind != 'KThread':
+    if kind == 'KPersistentThread':
+        class AE(FakeArgsEnd):
+            def put(self, obj):
+                self.send(obj)
+
+        class APT:
+            parent_end = AE(child)
+            child_end = AE(child)
+        w._args_pipe = APT()
+    if kind not in THREAD_KINDS:
         w._ctrl_comms = FakeCtrl(child, log)
     if kind == 'KPersistentProcess':
         class AP:
             parent_end = FakeArgsEnd(child)
             child_end = FakeArgsEnd(child)
         w._args_pipe = AP()
-    if kind == 'KThread':
+    if kind in THREAD_KINDS:
         # ThreadWorker.terminate raises the exception through foreign_raise(ident): scripted
         w._ident = -12345
     return w, child, log
@@ -157,7 +175,7 @@ def play(kind, cls, run, ops):
             elif op[0] == 'Wait':
                 r = w.wait(timeout=None if op[1] == 'TInf' else 0.05)
             elif op[0] == 'Terminate':
-                if kind == 'KThread' and op[2]:
+                if kind in THREAD_KINDS and op[2]:
                     r = w.terminate(timeout=None if op[1] == 'TInf' else 0.05) if False else w.terminate(timeout=0.05 if op[1] == 'TFin' else 0.05, force=False)
                 else:
                     r = w.terminate(timeout=None if op[1] == 'TInf' else 0.05, force=op[2])
@@ -174,7 +192,7 @@ def play(kind, cls, run, ops):
                     viol.append(f'{op} with a finite timeout issued blocking calls {new}')
                 if known_dead and (new or r is not True):
                     viol.append(f'{op} on a dead/never-run worker returned {r} after blocking calls {new}')
-                if op[0] == 'Terminate' and op[2] and kind != 'KThread' and alive_now:
+                if op[0] == 'Terminate' and op[2] and kind not in THREAD_KINDS and alive_now:
                     viol.append(f'terminate(force=True) left a {cls} child alive')
             if op[0] == 'IsAlive' and r is not alive_now:
                 viol.append(f'is_alive() returned {r} but the child is {"alive" if alive_now else "dead"}')
@@ -190,8 +208,8 @@ def coq_op(op, kind):
         return 'Close'
     if op[0] == 'Wait':
         return f'Wait {op[1]}'
-    force = op[2] and kind != 'KThread'
-    t = op[1] if not (kind == 'KThread') else 'TFin'
+    force = op[2] and kind not in THREAD_KINDS
+    t = op[1] if not (kind in THREAD_KINDS) else 'TFin'
     return f'Terminate {t} {"true" if force else "false"}'
 
 
@@ -290,7 +308,7 @@ def main(tier, seed, replay=None):
     core.quiet_stderr(PROP)
     res = core.Result(PROP, tier, seed)
     res.rule = ('every history of length <= 3 (quick) / 4 (thorough) over {is_alive, wait(finite), wait(None), terminate(finite, force), terminate(finite, no force), '
-                'terminate(None, force), close} x 5 child classes x {thread, process, persistent process} x {run, not run}, played on the real methods '
+                'terminate(None, force), close} x 5 child classes x {thread, process, persistent process, persistent thread} x {run, not run}, played on the real methods '
                 'against a scripted child that records every blocking call and its timeout (no wall-clock involved); quick also runs 4 real '
                 'unresponsive children (interpreter lock held by a C sleep, SIGSTOPped, swallowing, blocked in sleep) for the process kind, thorough '
                 'for process and remote kinds, with the bound 5 x timeout + 2 s. Non-trivial = history containing wait or terminate on a live child.')
@@ -302,14 +320,14 @@ def main(tier, seed, replay=None):
     sys.path.insert(0, core.REPO)
     terms, keep = [], []
     maxlen = 3 if tier == 'quick' else 4
-    for kind in ('KThread', 'KProcess', 'KPersistentProcess'):
+    for kind in ('KThread', 'KProcess', 'KPersistentProcess', 'KPersistentThread'):
         for cls in CLASSES:
             for run in (True, False):
                 for L in range(1, maxlen + 1):
                     if not run and L > 2:
                         continue
                     for ops in itertools.product(OPS, repeat=L):
-                        if kind == 'KThread' and any(o[0] == 'Terminate' and (o[2] or o[1] == 'TInf') for o in ops):
+                        if kind in THREAD_KINDS and any(o[0] == 'Terminate' and (o[2] or o[1] == 'TInf') for o in ops):
                             continue
                         rets, log, alive, viol = play(kind, cls, run, ops)
                         res.count(kind); res.count('class:' + cls)
